@@ -152,3 +152,4 @@ ad_frame!("i16", i16, i16);
 ad_frame!("u8", u8, u8);
 ad_frame!("i64", i64, i64);
 ad_frame!("[i32;2]", [i32; 2], i32);
+ad_frame!("[f64;2]", [f64; 2], f64);
